@@ -605,7 +605,11 @@ func (e *Engine) run(st *State, fr *Frame, b *ssa.BasicBlock, idx int) []Outcome
 				}
 				ks := sortOf(&Term{W: kw})
 				dom := &Term{Leaf: "((as const (Array " + ks + " Bool)) false)", W: -1, Sort: "(Array " + ks + " Bool)"}
-				fr.regs[i] = MapV{st.newObj(&MapObj{Dom: dom, Vals: map[string]*Term{}, KeyW: kw, ValT: mt.Elem(), Own: true})}
+				mo := &MapObj{Dom: dom, Vals: map[string]*Term{}, KeyW: kw, ValT: mt.Elem(), Own: true}
+				if _, isPtr := mt.Elem().Underlying().(*types.Pointer); isPtr {
+					mo.Vals["p"] = SymSort(fresh("mapval"), "(Array "+ks+" Ref)")
+				}
+				fr.regs[i] = MapV{st.newObj(mo)}
 			case *ssa.Lookup:
 				fr.regs[i] = e.mapLookup(st, fr, i)
 			case *ssa.MapUpdate:
@@ -622,8 +626,8 @@ func (e *Engine) run(st *State, fr *Frame, b *ssa.BasicBlock, idx int) []Outcome
 							hasDone = true
 						}
 					}
-					if hasSend {
-						e.oblige(st, "safe:select-cancellable", Bool(hasDone), "a blocking select with a send case must have a ctx.Done() alternative")
+					if hasSend || len(i.States) > 1 {
+						e.oblige(st, "safe:select-cancellable", Bool(hasDone), "a blocking select must have a ctx.Done() alternative (it could wait forever otherwise)")
 					}
 				}
 				var res []Outcome
@@ -1491,8 +1495,28 @@ func (e *Engine) loadGlobal(st *State, g *ssa.Global) Val {
 		return OpaqueV{n}
 	}
 	if et := g.Type().Underlying().(*types.Pointer).Elem(); isError(et) {
-		// package-level sentinel errors (errors.New at init): a non-nil error with its own identity
-		return ErrV{NonNil: tTrue, ID: Sym("global!"+strings.NewReplacer("/", "_", ".", "_").Replace(n), 64)}
+		// package-level sentinel errors: a non-nil error. Created by errors.New in the package's init => an identity
+		// of its own ("private!"); initialised from another package's variable => that variable's identity.
+		id := "global!" + strings.NewReplacer("/", "_", ".", "_").Replace(n)
+		if init := g.Pkg.Func("init"); init != nil {
+			for _, b := range init.Blocks {
+				for _, ins := range b.Instrs {
+					if sto, ok := ins.(*ssa.Store); ok && sto.Addr == ssa.Value(g) {
+						switch v := sto.Val.(type) {
+						case *ssa.Call:
+							if f := v.Call.StaticCallee(); f != nil && (f.String() == "errors.New" || f.String() == "fmt.Errorf") {
+								id = "private!" + strings.NewReplacer("/", "_", ".", "_").Replace(n)
+							}
+						case *ssa.UnOp:
+							if og, ok := v.X.(*ssa.Global); ok {
+								id = "global!" + strings.NewReplacer("/", "_", ".", "_").Replace(og.String())
+							}
+						}
+					}
+				}
+			}
+		}
+		return ErrV{NonNil: tTrue, ID: Sym(id, 64)}
 	}
 	if v, ok := globalInit[g]; ok {
 		return v
@@ -1895,6 +1919,10 @@ func (e *Engine) mapLookup(st *State, fr *Frame, i *ssa.Lookup) Val {
 	}
 	m := st.objs[mv.ID].(*MapObj)
 	k := asTerm(e.get(st, fr, i.Index))
+	if st.trace != nil {
+		st.trace.reads = append(st.trace.reads, traceRead{fmt.Sprintf("map|%d", mv.ID), k})
+	}
+	st.instantiate(fmt.Sprintf("map|%d", mv.ID), k)
 	present := Select(m.Dom, k, 0)
 	var v Val
 	switch u := m.ValT.Underlying().(type) {
